@@ -324,7 +324,12 @@ func (loader *Loader) resolveRefPath(ref string, path *url.URL) (*url.URL, error
 			path = new(url.URL)
 		}
 
-		path.Fragment = ref
+		// the fragment, as resolveComponent records it: without the "#", unescaped
+		if parsed, err := url.Parse(ref); err == nil {
+			path.Fragment, path.RawFragment = parsed.Fragment, parsed.RawFragment
+		} else {
+			path.Fragment, path.RawFragment = ref[1:], ""
+		}
 		return path, nil
 	}
 
